@@ -249,3 +249,31 @@ prop("C16", lambda tier: [e1wrap("c16ld", "harness/c16_pthread.c", "ld"), e1wrap
      "the redirected run is explored under all schedules with <= K deviations for both redirection mechanisms (ld --wrap objects, symbol-interposing objects)",
      assumptions=E1_ASSUME + ["programs are determinate by construction (their log is ordered by joins); calls outside the supported subset are out of scope as the property says",
                               "both mechanisms are exercised in statically linked form (objects compiled with MYTH_WRAP_LD + @myth-ld.opts; objects compiled with MYTH_WRAP_DL defining the pthread symbols themselves)"])
+
+
+def fine(name, src, harness_flags="", quickK=1, thoroughK=2, deadline=(90, 700)):
+    """E1 in 'every access is a scheduling point' mode (compiler-inserted callbacks, engine/mythmc/fine.c): reaches
+    interleavings inside code that carries no explicit hook, e.g. code added by a change"""
+    env = {"HARNESS_FLAGS": harness_flags} if harness_flags else {}
+    return {"kind": "e1", "name": name, "src": src, "libflags": "", "args": {"quick": "--K %d" % quickK, "thorough": "--K %d" % thoroughK},
+            "deadline": {"quick": deadline[0], "thorough": deadline[1]}, "env": env, "harness_flags": harness_flags, "require_pids": [],
+            "build_cmd": "engine/build_fine.sh %s %s" % (name, src)}
+
+
+def with_fine(pid, name, src, harness_flags=""):
+    base = PROPERTIES[pid]["components"]
+    PROPERTIES[pid]["components"] = lambda tier, base=base: base(tier) + [fine(name, src, harness_flags)]
+    PROPERTIES[pid]["rule"] += ("; plus the same programs in fine mode (every load/store of the library is a scheduling point, compiler-inserted callbacks) "
+                                "with <= 1 (quick) / <= 2 (thorough, under a deadline) deviations")
+
+
+with_fine("C01", "c01f", "harness/c01_forkjoin.c")
+with_fine("C04", "c04f", "harness/c04_mutex.c")
+with_fine("C05", "c05f", "harness/c05_cond.c")
+with_fine("C06", "c06f", "harness/c06_barrier.c")
+with_fine("C07", "c07f", "harness/c07_joincounter.c")
+with_fine("C08", "c08f", "harness/c08_uncond.c")
+with_fine("C09", "c09f", "harness/c09_felock.c")
+with_fine("C12", "c12f", "harness/c13_reap.c", "-DPROP_C12")
+with_fine("C13", "c13f", "harness/c13_reap.c")
+with_fine("C14", "c14f", "harness/c14_once.c")
